@@ -265,6 +265,15 @@ def dialect_table(ctx, tree, init):
                         found.append(a)
                 if found:
                     break
+        elif isinstance(n, ast.Subscript) and isinstance(n.slice, ast.Name) and n.slice.id == param and isinstance(n.value, ast.Attribute) \
+                and isinstance(n.value.value, ast.Name):
+            # self.X[name] / SqlalchemyRender.X[name] / type(self).X: a class-level constant
+            for c in tree.body:
+                if isinstance(c, ast.ClassDef) and init in c.body:
+                    for a in c.body:
+                        if isinstance(a, (ast.Assign, ast.AnnAssign)) and isinstance(a.value, ast.Dict) and any(
+                                isinstance(t, ast.Name) and t.id == n.value.attr for t in (a.targets if isinstance(a, ast.Assign) else [a.target])):
+                            found.append(a)
         elif isinstance(n, ast.Subscript) and isinstance(n.slice, ast.Name) and n.slice.id == param and isinstance(n.value, ast.Dict):
             found.append(ast.Assign(targets=[], value=n.value, lineno=n.lineno))
     ctx.need(len(found) == 1, 'SqlalchemyRender.__init__: the table the dialect name is looked up in was not found')
